@@ -355,14 +355,14 @@ def run(model: RepoModel, rep, tier: str):
     for name, (f, coll, kind) in sorted(acc.items()):
         rvs = rule_vars(f.node)
         for cmp_ in walk_no_nested(f.node):
-            if not (isinstance(cmp_, ast.Compare) and len(cmp_.ops) == 1):
+            if not isinstance(cmp_, ast.Compare):
                 continue
-            sides = [cmp_.left, cmp_.comparators[0]]
+            sides = [cmp_.left] + list(cmp_.comparators)
             flds = [x.attr for x in sides if isinstance(x, ast.Attribute) and isinstance(x.value, ast.Name) and x.value.id in rvs and x.attr in FILTER_EXACT]
             if not flds:
                 continue
             key = f"{TA}::TaintRuleApplier.{name}::rule.{flds[0]} restricts by equality"
-            if isinstance(cmp_.ops[0], (ast.Eq, ast.NotEq)):
+            if all(isinstance(o, (ast.Eq, ast.NotEq)) for o in cmp_.ops):
                 rep.holds("C11.R4", key, TA, cmp_.lineno, f"`{norm(cmp_)}`")
             else:
                 rep.violation("C11.R4", key, TA, cmp_.lineno,
@@ -409,6 +409,11 @@ def run(model: RepoModel, rep, tier: str):
                           f"collects the rules for the same statement without testing {missing}: the argument positions of rules "
                           f"restricted to other files/lines/kinds decide whether a flow is reported")
 
+    # a fresh TaintEnv is an empty one: its tag tables are created per instance
+    from ..generic import check_fresh_instance_state, check_shared_class_state
+    if check_fresh_instance_state(model, rep, "C11.R2", "taint/taint_structs.py", "TaintEnv") < 2:
+        raise AnalysisError("TaintEnv no longer keeps its tag tables in containers written through self")
+    check_shared_class_state(model, rep, "C11.R2", [r for r in ("taint/taint_structs.py", "taint/taint_analysis.py", "taint/rule_manager.py") if r in model.modules])
     # ------------------------------------------------------------------ R5
     rmm = model.module("taint/rule_manager.py")
     rmc = rmm.classes.get("RuleManager")
